@@ -100,6 +100,14 @@ func matrixByName(name string) align.SubstitutionMatrix {
 	case "seed":
 		s, _ := strconv.ParseInt(p[1], 10, 64)
 		m = seededMatrix(s, int(f(2)))
+	case "exact":
+		// scores that float64 adds exactly over these short sequences but float32 cannot hold
+		switch p[1] {
+		case "big":
+			m = symMatrix(16777217, -16777217, -16777219, f(2)*16777217)
+		case "fine":
+			m = symMatrix(1+1.0/(1<<30), -(1 + 1.0/(1<<29)), -(0.5 + 1.0/(1<<31)), f(2)*(0.25+1.0/(1<<32)))
+		}
 	case "Levenshtein":
 		m = align.Levenshtein
 	case "PAM120":
@@ -174,6 +182,10 @@ func matrixFamily(r *core.Run, which string, forLocal bool) []string {
 	add("sym:1:0:1:1")
 	for i := 0; i < 8; i++ {
 		add(fmt.Sprintf("seed:%d:%d", r.Seed, i))
+	}
+	for _, k := range []string{"big", "fine"} {
+		add("exact:" + k + ":0")
+		add("exact:" + k + ":-1")
 	}
 	return out
 }
